@@ -1,6 +1,7 @@
 import Mouette.Lemmas.MeshHeap
 import Mouette.Lemmas.MeshAlgebra
 import Mouette.Lemmas.MeshBBox
+import Mouette.Lemmas.MeshCopy
 /-
 C06 — meshes have value semantics: copy, merge and transforms never alias.
 
@@ -300,5 +301,278 @@ example :
 /-- non-vacuity of `Ortho`: the 3-4-5 rotation about z -/
 example : Ortho ⟨⟨3/5, -4/5, 0⟩, ⟨4/5, 3/5, 0⟩, ⟨0, 0, 1⟩⟩ := by
   unfold Ortho; simp only [M3.transpose, V3.dot]; norm_num
+
+/-! ## round 2: copy switches, mixed-kind merges, rotations about an origin, anisotropic scalings
+
+Extended model `Mouette.MeshHeap.stepX` (Model/MeshCopy.lean): per mesh one vertex attribute `"w"` (one heap cell per row)
+and the identity / back-reference of its connectivity handler. -/
+
+/-- P0 `copy_switches`: `copy(mesh, copy_attributes, copy_connectivity)`: coordinates and elements as in
+`copy_equal_disjoint`; the attribute rows are those of the source iff `copy_attributes` (none otherwise), in FRESH cells;
+for BOTH values of `copy_connectivity` the copy owns a NEW connectivity handler whose back-reference is the copy; no
+existing mesh / attribute changes -/
+theorem copy_switches (s : StateX) (i : Nat) (attrs conn : Bool) (m : Mesh) (e : MeshX)
+    (hm : s.st.meshes[i]? = some m) (he : s.extras[i]? = some e) (hwf : WF s.st) (hawf : AttrWF s) :
+    ∃ m' e', (stepX s (.copyX i attrs conn)).st.meshes = s.st.meshes ++ [m'] ∧
+      (stepX s (.copyX i attrs conn)).extras = s.extras ++ [e'] ∧
+      coords (stepX s (.copyX i attrs conn)).st.heap m' = coords s.st.heap m ∧
+      m'.edges = m.edges ∧ m'.faces = m.faces ∧ m'.cells = m.cells ∧
+      attrRows (stepX s (.copyX i attrs conn)).st.heap e' = (if attrs then attrRows s.st.heap e else none) ∧
+      (∀ r ∈ m'.verts, s.st.heap.length ≤ r) ∧ (∀ refs, e'.attr = some refs → ∀ r ∈ refs, s.st.heap.length ≤ r) ∧
+      e'.conn = s.conns.length ∧
+      (stepX s (.copyX i attrs conn)).conns = s.conns ++ [{ master := s.st.meshes.length }] ∧
+      (∀ m0 ∈ s.st.meshes, coords (stepX s (.copyX i attrs conn)).st.heap m0 = coords s.st.heap m0) ∧
+      (∀ e0 ∈ s.extras, attrRows (stepX s (.copyX i attrs conn)).st.heap e0 = attrRows s.st.heap e0) := by
+  obtain ⟨m', h1, h2, h3, h4, h5, h6, h7, h8⟩ := newMesh_spec s.st (coords s.st.heap m) m.edges m.faces m.cells hwf
+  have hcm : copyMesh s.st i = newMesh s.st (coords s.st.heap m) m.edges m.faces m.cells := by simp only [copyMesh, hm]
+  have hfresh : ∀ r ∈ m'.verts, s.st.heap.length ≤ r ∧ r < (copyMesh s.st i).heap.length := by
+    intro r hr; rw [h6] at hr; have := mem_range'_iff.mp hr
+    rw [hcm, h7, List.length_append]; omega
+  have hplain : ∀ (hx : attrs = false ∨ e.attr = none),
+      (∃ m' e', (pushPlain s (copyMesh s.st i)).st.meshes = s.st.meshes ++ [m'] ∧
+      (pushPlain s (copyMesh s.st i)).extras = s.extras ++ [e'] ∧
+      coords (pushPlain s (copyMesh s.st i)).st.heap m' = coords s.st.heap m ∧
+      m'.edges = m.edges ∧ m'.faces = m.faces ∧ m'.cells = m.cells ∧
+      attrRows (pushPlain s (copyMesh s.st i)).st.heap e' = (if attrs then attrRows s.st.heap e else none) ∧
+      (∀ r ∈ m'.verts, s.st.heap.length ≤ r) ∧ (∀ refs, e'.attr = some refs → ∀ r ∈ refs, s.st.heap.length ≤ r) ∧
+      e'.conn = s.conns.length ∧
+      (pushPlain s (copyMesh s.st i)).conns = s.conns ++ [{ master := s.st.meshes.length }] ∧
+      (∀ m0 ∈ s.st.meshes, coords (pushPlain s (copyMesh s.st i)).st.heap m0 = coords s.st.heap m0) ∧
+      (∀ e0 ∈ s.extras, attrRows (pushPlain s (copyMesh s.st i)).st.heap e0 = attrRows s.st.heap e0)) := by
+    intro hx
+    refine ⟨m', { attr := none, conn := s.conns.length }, (by simp only [pushPlain, hcm]; exact h1), rfl,
+      (by simp only [pushPlain, hcm]; exact h5), h2, h3, h4, ?_, (fun r hr => (hfresh r hr).1), (fun refs h => by cases h), rfl, rfl,
+      (by simp only [pushPlain, hcm]; exact h8), ?_⟩
+    · rcases hx with hx | hx
+      · simp [hx, attrRows]
+      · simp [attrRows, hx]
+    · intro e0 he0; simp only [pushPlain, hcm, h7]
+      exact attrRows_append _ _ e0 (hawf e0 he0)
+  simp only [stepX, copyX, hm, he]
+  cases hat : e.attr with
+  | none => simp only; exact hplain (Or.inr hat)
+  | some refs =>
+    cases attrs with
+    | false => simp only; exact hplain (Or.inl rfl)
+    | true =>
+      simp only [alloc]
+      have hrl : ∀ r ∈ refs, r < s.st.heap.length := hawf e (List.mem_of_getElem? he) refs hat
+      have hst1 : (copyMesh s.st i).heap = s.st.heap ++ coords s.st.heap m := by rw [hcm]; exact h7
+      refine ⟨m', { attr := some (List.range' (copyMesh s.st i).heap.length (refs.map (deref s.st.heap)).length), conn := s.conns.length },
+        (by simp only [hcm]; exact h1), (by first | trivial | rfl), ?_, h2, h3, h4, ?_, (fun r hr => (hfresh r hr).1), ?_, (by first | trivial | rfl), (by first | trivial | rfl), ?_, ?_⟩
+      · rw [coords_append _ _ (fun r hr => (hfresh r hr).2)]; rw [hcm]; exact h5
+      · simp only [attrRows, Option.map_some, if_true, hat]
+        rw [map_deref_range]
+      · intro refs' h r hr
+        simp only [Option.some.injEq] at h; rw [← h] at hr
+        have := mem_range'_iff.mp hr
+        rw [hst1, List.length_append] at this; omega
+      · intro m0 hm0
+        rw [coords_append _ _ (fun r hr => by rw [hst1, List.length_append]; have := hwf m0 hm0 r hr; omega)]
+        rw [hcm]; exact h8 m0 hm0
+      · intro e0 he0
+        rw [attrRows_append _ _ e0 (fun refs0 h r hr => by rw [hst1, List.length_append]; have := hawf e0 he0 refs0 h r hr; omega)]
+        rw [hst1]; exact attrRows_append _ _ e0 (hawf e0 he0)
+
+/-- P0 `copy_isolated`: a cell edit (`mesh.vertices[v][c] = x`, `attr[v][c] = x`, `attr[v] = …`) on one side of the
+boundary between old and fresh cells changes neither coordinates nor attribute rows of a mesh living on the other side:
+with `copy_switches` (the copy lives entirely in fresh cells, the existing meshes entirely in old ones) editing the copy
+never changes the source and editing the source never changes the copy — attributes included -/
+theorem copy_isolated (h : Heap) (L r : Nat) (v : V3) (m0 : Mesh) (e0 : MeshX) :
+    (L ≤ r → (∀ r0 ∈ m0.verts, r0 < L) → (∀ refs, e0.attr = some refs → ∀ r0 ∈ refs, r0 < L) →
+        coords (h.set r v) m0 = coords h m0 ∧ attrRows (h.set r v) e0 = attrRows h e0) ∧
+    (r < L → (∀ r0 ∈ m0.verts, L ≤ r0) → (∀ refs, e0.attr = some refs → ∀ r0 ∈ refs, L ≤ r0) →
+        coords (h.set r v) m0 = coords h m0 ∧ attrRows (h.set r v) e0 = attrRows h e0) := by
+  constructor
+  · intro hr hv ha
+    exact ⟨coords_set_far h r v m0 (fun r0 h0 => by have := hv r0 h0; omega),
+           attrRows_set_far h r v e0 (fun refs hh r0 h0 => by have := ha refs hh r0 h0; omega)⟩
+  · intro hr hv ha
+    exact ⟨coords_set_far h r v m0 (fun r0 h0 => by have := hv r0 h0; omega),
+           attrRows_set_far h r v e0 (fun refs hh r0 h0 => by have := ha refs hh r0 h0; omega)⟩
+
+/-- P0 `conn_own_run`: after EVERY sequence of base operations, copies with any switches and attribute operations,
+every mesh owns one connectivity handler whose back-reference points at that mesh (so no two meshes share a handler) -/
+theorem conn_own_run (ops : List OpX) :
+    ConnOwn (runX initX ops) ∧
+    ∀ (i j : Nat) (ei ej : MeshX), (runX initX ops).extras[i]? = some ei → (runX initX ops).extras[j]? = some ej → ei.conn = ej.conn → i = j := by
+  have h : ConnOwn (runX initX ops) := connOwn_run ops initX ⟨rfl, fun i e he => by simp [initX] at he⟩
+  refine ⟨h, ?_⟩
+  intro i j ei ej hi hj hc
+  have h1 := h.2 i ei hi
+  have h2 := h.2 j ej hj
+  rw [hc, h2] at h1
+  injection h1 with h1; injection h1 with h1; exact h1.symm
+
+/-- the pre-repair `copy(copy_connectivity=True)` refuted on a witness: the copy (mesh 1) holds the handler object of
+the source (mesh 0), whose back-reference is mesh 0 -/
+theorem legacy_copy_shares_connectivity :
+    let s := legacyCopyX (stepX initX (.base (.new [⟨0, 0, 0⟩, ⟨1, 0, 0⟩] [[0, 1]] [] []))) 0
+    (s.extras[1]?.map (·.conn)) = (s.extras[0]?.map (·.conn)) ∧
+    ((s.extras[1]?.bind (fun e => s.conns[e.conn]?)).map (·.master)) = some 0 ∧ ¬ ConnOwn s := by
+  refine ⟨by decide, by decide, ?_⟩
+  intro h
+  have := h.2 1 { attr := none, conn := 0 } (by decide)
+  revert this; decide
+
+/-- P0 `merge_pointcloud_first`: a mesh without elements of a kind (a point cloud before a polyline / surface) still
+advances the running offset by ITS vertex count: the elements of what follows are shifted past its vertices -/
+theorem merge_pointcloud_first (sel : Mesh → List (List Nat)) (pc : Mesh) (rest : List Mesh) (h : sel pc = []) :
+    shiftedFrom sel 0 (pc :: rest) = shiftedFrom sel pc.verts.length rest ∧
+    (∀ e ∈ shiftedFrom sel 0 (pc :: rest), (∀ m ∈ rest, ∀ e' ∈ sel m, ∀ u ∈ e', u < m.verts.length) →
+        ∀ u ∈ e, pc.verts.length ≤ u) := by
+  have h0 : shiftedFrom sel 0 (pc :: rest) = shiftedFrom sel pc.verts.length rest := by
+    have := shiftedFrom_skip sel pc rest 0 h; simpa using this
+  refine ⟨h0, ?_⟩
+  intro e he hv u hu
+  rw [h0] at he
+  exact (shiftedFrom_block sel rest pc.verts.length hv e he u hu).1
+
+/-- P0 `rotate_about_origin`: rotating about an origin `o ≠ 0` is translate(−o), rotate about 0, translate(o); `o` itself
+is fixed -/
+theorem rotate_about_origin (r : M3) (o p : V3) :
+    rotateMap r o p = (rotateMap r V3.zero (p.sub o)).add o ∧ rotateMap r o o = o :=
+  ⟨Mouette.MeshHeap.rotate_about_origin r o p, rotate_fixes_origin r o⟩
+
+/-- P0 `scale_xyz_round_trip`: `scale_xyz(fx,fy,fz)` then `scale_xyz(1/fx,1/fy,1/fz)` about the same origin restores
+the coordinates for all NON-ZERO factors, negative ones (mirrorings) included; the origin is a fixed point -/
+theorem scale_xyz_round_trip (fx fy fz : Rat) (hx : fx ≠ 0) (hy : fy ≠ 0) (hz : fz ≠ 0) (o : V3) (s : State) (i : Nat)
+    (m : Mesh) (hm : s.meshes[i]? = some m) (hwf : WF s) :
+    (∃ m2, (scaleXyz (1 / fx) (1 / fy) (1 / fz) o (scaleXyz fx fy fz o s i) i).meshes[i]? = some m2 ∧
+      coords (scaleXyz (1 / fx) (1 / fy) (1 / fz) o (scaleXyz fx fy fz o s i) i).heap m2 = coords s.heap m) ∧
+    scaleXyzMap fx fy fz o o = o := by
+  obtain ⟨m2, h1, h2, _⟩ := rebind_round_trip (scaleXyzMap fx fy fz o) (scaleXyzMap (1 / fx) (1 / fy) (1 / fz) o)
+    (scaleXyz_inv fx fy fz hx hy hz o) s i m hm hwf
+  exact ⟨⟨m2, h1, h2⟩, scaleXyz_fixes_origin fx fy fz o⟩
+
+/-- `scale_xyz` without an origin scales about the FIRST vertex (the object bound before the loop): it stays put -/
+theorem scale_xyz_default_origin (fx fy fz : Rat) (s : State) (i : Nat) (m : Mesh) (hm : s.meshes[i]? = some m) (hwf : WF s)
+    (p0 : V3) (rest : List V3) (hc : coords s.heap m = p0 :: rest) :
+    ∃ m', (step s (.scaleXyz i fx fy fz none)).meshes[i]? = some m' ∧
+      coords (step s (.scaleXyz i fx fy fz none)).heap m' = p0 :: rest.map (scaleXyzMap fx fy fz p0) := by
+  simp only [step, hm, hc, List.getD_cons_zero]
+  obtain ⟨_, ⟨m', a2, a3, _⟩, _⟩ := mapRebind_spec (scaleXyzMap fx fy fz p0) s i m hm hwf
+  refine ⟨m', a2, ?_⟩
+  show coords (mapRebind _ s i).heap m' = _
+  rw [a3, hc, List.map_cons, scaleXyz_fixes_origin]
+
+/-- non-vacuity (a test): a point cloud merged BEFORE a segment; a copy with attributes whose attribute is then edited -/
+example :
+    let s := runX initX [.base (.new [⟨5, 5, 5⟩, ⟨6, 6, 6⟩, ⟨7, 7, 7⟩] [] [] []), .base (.new [⟨0, 0, 0⟩, ⟨1, 0, 0⟩] [[0, 1]] [] []),
+      .base (.merge [0, 1]), .createAttr 1, .setAttr 1 0 ⟨1, 2, 3⟩, .copyX 1 true true, .editAttr 3 0 2 9]
+    (s.st.meshes[2]?.map (·.edges)) = some [[3, 4]] ∧
+    (s.extras.map (attrRows s.st.heap)) = [none, some [⟨1, 2, 3⟩, ⟨0, 0, 0⟩], none, some [⟨1, 2, 9⟩, ⟨0, 0, 0⟩]] := by
+  refine ⟨by decide, by decide +kernel⟩
+
+/-- the hypotheses of `copy_switches` hold in every reachable state: after EVERY sequence of extended operations the
+coordinates are alias-free and every attribute reference points into the heap -/
+theorem wfx_run (ops : List OpX) : AliasFree (runX initX ops).st ∧ AttrWF (runX initX ops) := by
+  have hstep : ∀ (s : StateX) (op : OpX), AliasFree s.st → AttrWF s → AliasFree (stepX s op).st ∧ AttrWF (stepX s op) := by
+    intro s op h1 h2
+    have happ : ∀ vs : Heap, AliasFree { s.st with heap := s.st.heap ++ vs } := fun vs =>
+      ⟨fun m hm r hr => by simp only [List.length_append]; have := h1.1 m hm r hr; omega, h1.2⟩
+    have hset : ∀ (r : Nat) (v : V3), AliasFree { s.st with heap := s.st.heap.set r v } := fun r v =>
+      ⟨fun m hm r0 hr0 => by simp only [List.length_set]; exact h1.1 m hm r0 hr0, h1.2⟩
+    have hset2 : ∀ (r : Nat) (v : V3), AttrWF { s with st := { s.st with heap := s.st.heap.set r v } } := fun r v =>
+      fun e he refs ha r0 hr0 => by simp only [List.length_set]; exact h2 e he refs ha r0 hr0
+    cases op with
+    | base op =>
+      simp only [stepX]
+      have ha := alias_free_step s.st op h1
+      obtain ⟨hmono, _⟩ := step_mono s.st op
+      have hold : ∀ e ∈ s.extras, ∀ refs, e.attr = some refs → ∀ r ∈ refs, r < (step s.st op).heap.length :=
+        fun e he refs hr r hrr => Nat.lt_of_lt_of_le (h2 e he refs hr r hrr) hmono
+      by_cases hlt : s.st.meshes.length < (step s.st op).meshes.length
+      · rw [if_pos hlt]
+        refine ⟨ha, ?_⟩
+        intro e he refs hr r hrr
+        simp only [pushPlain, List.mem_append, List.mem_singleton] at he
+        rcases he with he | he
+        · exact hold e he refs hr r hrr
+        · rw [he] at hr; cases hr
+      · rw [if_neg hlt]; exact ⟨ha, hold⟩
+    | copyX i attrs conn =>
+      simp only [stepX, copyX]
+      cases hm : s.st.meshes[i]? with
+      | none => exact ⟨h1, h2⟩
+      | some m =>
+        cases he : s.extras[i]? with
+        | none => exact ⟨h1, h2⟩
+        | some e =>
+          simp only
+          have hc : AliasFree (copyMesh s.st i) := by
+            have := alias_free_step s.st (.copy i) h1; simpa [step] using this
+          have hmono : s.st.heap.length ≤ (copyMesh s.st i).heap.length := by
+            have := (step_mono s.st (.copy i)).1; simpa [step] using this
+          have hplain : AliasFree (pushPlain s (copyMesh s.st i)).st ∧ AttrWF (pushPlain s (copyMesh s.st i)) := by
+            refine ⟨hc, ?_⟩
+            intro e0 he0 refs hr r hrr
+            simp only [pushPlain, List.mem_append, List.mem_singleton] at he0
+            rcases he0 with he0 | he0
+            · exact Nat.lt_of_lt_of_le (h2 e0 he0 refs hr r hrr) hmono
+            · rw [he0] at hr; cases hr
+          cases hat : e.attr with
+          | none => simp only; exact hplain
+          | some refs =>
+            cases attrs with
+            | false => simp only; exact hplain
+            | true =>
+              simp only [alloc]
+              refine ⟨⟨fun m0 hm0 r hr => by simp only [List.length_append]; have := hc.1 m0 hm0 r hr; omega, hc.2⟩, ?_⟩
+              intro e0 he0 refs0 hr r hrr
+              simp only [List.mem_append, List.mem_singleton] at he0
+              simp only [List.length_append]
+              rcases he0 with he0 | he0
+              · have := h2 e0 he0 refs0 hr r hrr; omega
+              · rw [he0] at hr; simp only [Option.some.injEq] at hr; rw [← hr] at hrr
+                have := mem_range'_iff.mp hrr; omega
+    | createAttr i =>
+      simp only [stepX]
+      cases hm : s.st.meshes[i]? with
+      | none => exact ⟨h1, h2⟩
+      | some m =>
+        cases he : s.extras[i]? with
+        | none => exact ⟨h1, h2⟩
+        | some e =>
+          simp only [alloc]
+          refine ⟨happ _, ?_⟩
+          intro e0 he0 refs0 hr r hrr
+          simp only [List.length_append, List.length_replicate]
+          rcases List.mem_or_eq_of_mem_set he0 with he0 | he0
+          · have := h2 e0 he0 refs0 hr r hrr; omega
+          · rw [he0] at hr; simp only [Option.some.injEq] at hr; rw [← hr] at hrr
+            have := mem_range'_iff.mp hrr; simp only [List.length_replicate] at this; omega
+    | setAttr i v val =>
+      simp only [stepX]
+      cases s.extras[i]? with
+      | none => exact ⟨h1, h2⟩
+      | some e =>
+        simp only
+        cases e.attr with
+        | none => exact ⟨h1, h2⟩
+        | some refs =>
+          simp only
+          cases refs[v]? with
+          | none => exact ⟨h1, h2⟩
+          | some r => exact ⟨hset r val, hset2 r val⟩
+    | editAttr i v c x =>
+      simp only [stepX]
+      cases s.extras[i]? with
+      | none => exact ⟨h1, h2⟩
+      | some e =>
+        simp only
+        cases e.attr with
+        | none => exact ⟨h1, h2⟩
+        | some refs =>
+          simp only
+          cases refs[v]? with
+          | none => exact ⟨h1, h2⟩
+          | some r => exact ⟨hset r _, hset2 r _⟩
+  have h0 : AliasFree initX.st ∧ AttrWF initX :=
+    ⟨⟨(fun m hm => by cases hm), (fun i j mi mj a b r hi => by simp [initX, init] at hi)⟩, (fun e he => by cases he)⟩
+  suffices ∀ s, (AliasFree s.st ∧ AttrWF s) → AliasFree (runX s ops).st ∧ AttrWF (runX s ops) from this initX h0
+  induction ops with
+  | nil => intro s h; exact h
+  | cons op ops ih => intro s h; exact ih _ (hstep s op h.1 h.2)
 
 end Mouette.Props.C06
